@@ -18,6 +18,8 @@ import (
 	"errors"
 	"fmt"
 	"io"
+	"os"
+	"path/filepath"
 	"reflect"
 	"sort"
 	"strings"
@@ -1029,6 +1031,7 @@ func (engine) Decode(raw json.RawMessage) (any, error) {
 
 func (engine) Run(ci any) lib.Result {
 	c := ci.(*Case)
+	defer markRunning(c)()
 	res := lib.Result{}
 	ag, err := buildAgent(c)
 	if err != nil {
@@ -1101,6 +1104,21 @@ func (engine) Run(ci any) lib.Result {
 	}
 	res.Nontrivial = len(gen.Rounds) >= 1
 	return res
+}
+
+
+// crash marker: if the implementation kills the process (an unrecovered panic on a goroutine
+// the harness cannot guard, a fatal runtime error), ./check finds fatal.json in the run
+// directory and reports the case as a violation with this replay.
+func markRunning(c any) func() {
+	dir := os.Getenv("VERIF_RUNDIR")
+	if dir == "" {
+		return func() {}
+	}
+	p := filepath.Join(dir, "fatal.json")
+	b, _ := json.Marshal(map[string]any{"case": c, "what": "the process died while this case was running on the implementation"})
+	_ = os.WriteFile(p, b, 0o644)
+	return func() { _ = os.Remove(p) }
 }
 
 func main() { lib.Main(engine{}) }
